@@ -37,12 +37,11 @@ def rebin(a, newshape):
     '''
     assert len(a.shape) == len(newshape)
 
-    slices = [slice(0, old, float(old) / new)
-              for old, new in zip(a.shape, newshape)]
-    coordinates = np.mgrid[slices]
-    # choose the biggest smaller integer index
-    indices = coordinates.astype('i')
-    return a[tuple(indices)]
+    # choose the biggest smaller integer index; exact integer arithmetic
+    # (a float step can give one sample too many or an index == old)
+    indices = np.ix_(*[(np.arange(new) * old) // new
+                       for old, new in zip(a.shape, newshape)])
+    return a[indices]
 
 
 def stf_kolmogorov(r):
